@@ -178,6 +178,60 @@ let run_case (c : st) : string =
           else if Float.abs (m -. c.area) <= 1e-12 *. (1. +. Float.abs c.area) then upd 1
           else note (Printf.sprintf "molecule area: model %h impl %h" m c.area)
         end);
+       (* the shape constructors (from_radial / polygon / from_trimer / circle) against the model's *)
+       (let field k = List.find_map (fun t -> let p = k ^ "=" in let n = String.length p in
+                        if String.length t > n && String.sub t 0 n = p then Some (String.sub t n (String.length t - n)) else None)
+                        (String.split_on_char ' ' c.spec) in
+        let fl s = if String.length s > 1 && s.[0] = 'x' then float_of_hex (String.sub s 1 (String.length s - 1)) else float_of_string s in
+        let fsin x = f2c (sin (c2f x)) and fcos x = f2c (cos (c2f x)) and pi = f2c Float.pi in
+        let close a b = same a b || Float.abs (a -. b) <= 1e-15 *. (1. +. Float.abs b) in
+        let overridden = field "cuts" <> None || field "epss" <> None || field "sigs" <> None in
+        match field "shape", field "kind" with
+        | Some sh, kind when not overridden ->
+            let parts = String.split_on_char ':' sh in
+            (match parts, kind with
+             | ("polygon" | "radial") :: rest, _ when c.kind = 'P' ->
+                 let pts = if List.hd parts = "polygon" then List.init (int_of_string (List.hd rest)) (fun _ -> f2c 1.)
+                           else List.map (fun t -> f2c (fl t)) rest in
+                 let m = from_radial numF pi fsin fcos pts in
+                 if List.length m <> List.length c.segs then note "shape constructor: number of edges"
+                 else List.iteri (fun i (a : seg) ->
+                     let b = List.nth c.segs i in
+                     let l = [ (a.sx1, b.sx1); (a.sy1, b.sy1); (a.sx2, b.sx2); (a.sy2, b.sy2) ] in
+                     if List.for_all (fun (x, y) -> same (c2f x) (c2f y)) l then ()
+                     else if List.for_all (fun (x, y) -> close (c2f x) (c2f y)) l then upd 1
+                     else note (Printf.sprintf "from_radial edge %d: model (%h,%h)-(%h,%h) impl (%h,%h)-(%h,%h)" i
+                                  (c2f a.sx1) (c2f a.sy1) (c2f a.sx2) (c2f a.sy2) (c2f b.sx1) (c2f b.sy1) (c2f b.sx2) (c2f b.sy2))) m
+             | [ "circle" ], _ when c.kind = 'M' ->
+                 (match c.discs with
+                  | [ d ] when same (c2f d.dx_) 0. && same (c2f d.dy_) 0. && same (c2f d.dr) 1. -> ()
+                  | _ -> note "circle(): not one unit disc at the origin")
+             | [ "trimer"; r; a; d ], _ when c.kind = 'M' ->
+                 let m = mol_trimer numF pi fsin fcos (f2c (fl r)) (f2c (fl a)) (f2c (fl d)) in
+                 if List.length m <> List.length c.discs then note "from_trimer: number of discs"
+                 else List.iteri (fun i (x : disc) ->
+                     let y = List.nth c.discs i in
+                     let l = [ (x.dx_, y.dx_); (x.dy_, y.dy_); (x.dr, y.dr) ] in
+                     if List.for_all (fun (p, q) -> same (c2f p) (c2f q)) l then ()
+                     else if List.for_all (fun (p, q) -> close (c2f p) (c2f q)) l then upd 1
+                     else note (Printf.sprintf "from_trimer disc %d: model (%h,%h,%h) impl (%h,%h,%h)" i
+                                  (c2f x.dx_) (c2f x.dy_) (c2f x.dr) (c2f y.dx_) (c2f y.dy_) (c2f y.dr))) m
+             | ([ "circle" ] | [ "trimer"; _; _; _ ]), _ when c.kind = 'J' ->
+                 let m = (match parts with
+                          | [ "trimer"; r; a; d ] -> lj_trimer numF pi fsin fcos (f2c 3.5) (f2c (fl r)) (f2c (fl a)) (f2c (fl d))
+                          | _ -> lj_circle numF) in
+                 let oeq p q = match p, q with None, None -> true | Some x, Some y -> same (c2f x) (c2f y) | _ -> false in
+                 if List.length m <> List.length c.ljs then note "LJ shape constructor: number of particles"
+                 else List.iteri (fun i (x : lj) ->
+                     let y = List.nth c.ljs i in
+                     let l = [ (x.lx, y.lx); (x.ly, y.ly); (x.lsigma, y.lsigma); (x.leps, y.leps) ] in
+                     if not (oeq x.lcut y.lcut) then note (Printf.sprintf "LJ particle %d: cutoff differs from the constructor's" i)
+                     else if List.for_all (fun (p, q) -> same (c2f p) (c2f q)) l then ()
+                     else if List.for_all (fun (p, q) -> close (c2f p) (c2f q)) l then upd 1
+                     else note (Printf.sprintf "LJ particle %d: model (%h,%h,s=%h,e=%h) impl (%h,%h,s=%h,e=%h)" i
+                                  (c2f x.lx) (c2f x.ly) (c2f x.lsigma) (c2f x.leps) (c2f y.lx) (c2f y.ly) (c2f y.lsigma) (c2f y.leps))) m
+             | _ -> ())
+        | _ -> ());
        (* the enclosing radius of the shape (C01): Shape::enclosing_radius against the model's shape_radius *)
        (if (c.kind = 'P' && c.segs <> []) || (c.kind = 'M' && c.discs <> []) then begin
           let shape = if c.kind = 'P' then Poly c.segs else Mol c.discs in
